@@ -10,13 +10,13 @@ require (
 	github.com/piprate/json-gold v0.5.1-0.20241210232033-19254b3ec65b
 	github.com/pquerna/cachecontrol v0.0.0-20180517163645-1555304b9b35
 	github.com/santhosh-tekuri/jsonschema/v5 v5.3.0
+	golang.org/x/crypto v0.12.0
 )
 
 require (
 	github.com/dchest/blake512 v1.0.0 // indirect
 	github.com/mr-tron/base58 v1.2.0 // indirect
 	github.com/pkg/errors v0.9.1 // indirect
-	golang.org/x/crypto v0.12.0 // indirect
 	golang.org/x/sys v0.15.0 // indirect
 )
 
